@@ -232,7 +232,7 @@ def _(cx):
     cx.cover("end")
 
 
-def _plane_in_frame(cx, T, loc):
+def _plane_in_frame(cx, T, loc, band=True):
     """a plane given in the frame T of the shape: unit normal nu and point pi in local coordinates (bijection with world planes); the band /
     domain preconditions of `_plane_hull` for the vertex list `loc`"""
     nu = spec.unit_vector(cx, "nu")
@@ -240,7 +240,7 @@ def _plane_in_frame(cx, T, loc):
     n = contiguous(spec.to_world_dir(cx, T, nu))
     q = contiguous(spec.to_world_point(cx, T, pi))
     height = lambda y: dot(nu, [y[k] - pi[k] for k in range(3)])
-    for i in range(len(loc)):
+    for i in range(len(loc) if band else 0):
         for j in range(i + 1, len(loc)):
             dz = height(loc[i]) - height(loc[j])
             dd = sq([loc[i][k] - loc[j][k] for k in range(3)])
@@ -270,6 +270,60 @@ def _(cx):
     _summarise_segment_to_plane(cx, P["T"])
     res = cx.call(f, q, n, P["c"], P["axes"], P["lengths"])
     _plane_hull_post(cx, P["T"], q, n, loc, res, height)
+    cx.cover("end")
+
+
+def _box_corners(cx, P):
+    h = [0.5 * P["size"][k] for k in range(3)]
+    return [arr(cx, [sa * h[0], sb * h[1], sc * h[2]]) for sa in (-1.0, 1.0) for sb in (-1.0, 1.0) for sc in (-1.0, 1.0)]
+
+
+@contract("geometry.convert_box_to_vertices", fn="distance3d.geometry.convert_box_to_vertices", props=["C10", "C11"], prop_level=False)
+def _(cx):
+    """every pose and size: the result is an (8, 3) array whose rows are the 8 corners T (+-s0/2, +-s1/2, +-s2/2), each sign pattern once"""
+    f = cx.target()
+    P = SHAPES["box"].params(cx, lo=0.2)
+    res = cx.call(f, P["T"], P["size"])
+    cx.prove("shape", bool(tuple(res.shape) == (8, 3)))
+    for k, y in enumerate(_box_corners(cx, P)):
+        w = spec.to_world_point(cx, P["T"], y)
+        cx.prove("corner[%d]" % k, cx.all([cx.eq(res[k][i], w[i]) for i in range(3)]))
+    cx.cover("end")
+
+
+@contract("distance.plane_to_box:call_site", fn=PL + "plane_to_box", props=["C10", "C11"],
+          deps=["distance3d.geometry.convert_box_to_vertices"], opts=dict(abs_ite=True))
+def _(cx):
+    """modular step of plane_to_box (every pose, sizes in [0.2, 1e2], every plane): the hull kernel `_plane_to_convex_hull_points` is
+    replaced by an opaque summary; proved: the kernel receives the plane point and normal unchanged and an (8, 3) C-contiguous array of
+    exactly the 8 corners of the box, and its result is returned unchanged.  The kernel itself is under contract for 3 points
+    (`distance.plane_to_triangle`) and 4 points (`distance.plane_to_rectangle`); its contract for 8 points is NOT discharged (assumed by
+    instantiation, see DESIGN section 6).  Natively (no summary): the full postcondition (true distance, members, d = |p1 - p2|)."""
+    f = cx.target()
+    P = SHAPES["box"].params(cx, lo=0.2)
+    loc = _box_corners(cx, P)
+    q, n, height = _plane_in_frame(cx, P["T"], loc, band=not sym(cx))     # the opaque kernel summary needs no band
+    if not sym(cx):
+        res = cx.call(f, q, n, P["T"], P["size"])
+        _plane_hull_post(cx, P["T"], q, n, loc, res, height)
+        cx.cover("end")
+        return
+    token = (cx.real("ks_d"), contiguous(cx.vec("ks_p1")), contiguous(cx.vec("ks_p2")))
+    seen = []
+
+    def summary(pp, pn, pts):
+        seen.append(1)
+        cx.prove("callee_arg:plane_point", cx.all([cx.eq(pp[i], q[i]) for i in range(3)]), kind="callee_pre")
+        cx.prove("callee_arg:plane_normal", cx.all([cx.eq(pn[i], n[i]) for i in range(3)]), kind="callee_pre")
+        cx.prove("callee_arg:points_layout", bool(tuple(pts.shape) == (8, 3)), kind="callee_pre")
+        for k, y in enumerate(loc):
+            w = spec.to_world_point(cx, P["T"], y)
+            cx.prove("callee_arg:corner[%d]" % k, cx.all([cx.eq(pts[k][i], w[i]) for i in range(3)]), kind="callee_pre")
+        return token
+    cx.repo.patch(PL + "_plane_to_convex_hull_points", summary)
+    res = cx.call(f, q, n, P["T"], P["size"])
+    cx.prove("kernel_called_once", bool(len(seen) == 1))
+    cx.prove("result_is_kernel_result", bool(len(res) == 3 and all(res[i] is token[i] for i in range(3))))
     cx.cover("end")
 
 
